@@ -63,9 +63,14 @@ func constBool(v ssa.Value) (bool, bool) {
 
 // decoderFns: the Decode methods of the two JWT codecs, found by role: samlsp methods that call
 // (*jwt.Parser).ParseWithClaims.
+// decoderFns: the samlsp functions that decode a token: the outermost library functions whose body, or an unexported
+// helper they call, hands the token to jwt.Parser.ParseWithClaims (a parse helper shared by the codecs is part of each).
 func decoderFns(p *Prog) []*ssa.Function {
+	calls := func(fn *ssa.Function) bool {
+		return len(callsTo(fn, "(*"+jwtPath+".Parser).ParseWithClaims")) > 0
+	}
 	var out []*ssa.Function
-	for _, fn := range p.FuncsCalling("(*" + jwtPath + ".Parser).ParseWithClaims") {
+	for _, fn := range maximalRoots(p, calls) {
 		if p.InLibrary(fn) {
 			out = append(out, fn)
 		}
@@ -80,15 +85,14 @@ type markerInfo struct {
 	JSON   string
 }
 
-func claimsStructOf(fn *ssa.Function) *types.Named {
-	for _, b := range fn.Blocks {
-		for _, in := range b.Instrs {
-			if c, ok := in.(*ssa.Call); ok {
-				if scf := c.Call.StaticCallee(); scf != nil && strings.HasSuffix(scf.String(), "Parser).ParseWithClaims") {
-					arg := c.Call.Args[2]
-					if mi, ok := arg.(*ssa.MakeInterface); ok {
-						return namedOf(mi.X.Type())
-					}
+func claimsStructOf(p *Prog, fn *ssa.Function) *types.Named {
+	rg := NewRegion(p, fn, 2)
+	for _, x := range rg.Calls("(*" + jwtPath + ".Parser).ParseWithClaims") {
+		c := x.I.(*ssa.Call)
+		for _, o := range rg.Origins(RV{V: c.Call.Args[2], C: x.C}) {
+			if n := namedOf(o.V.Type()); n != nil {
+				if _, isStruct := n.Underlying().(*types.Struct); isStruct {
+					return n
 				}
 			}
 		}
@@ -152,7 +156,7 @@ func checkDecodeGates(r *Report, p *Prog, rule string, only func(*ssa.Function) 
 		panic(unresolved{fmt.Sprintf("role JWT decoders (samlsp methods calling jwt.Parser.ParseWithClaims): found %d, expected the session codec and the tracked-request codec", len(fns))})
 	}
 	for _, fn := range fns {
-		cs := claimsStructOf(fn)
+		cs := claimsStructOf(p, fn)
 		var mk *markerInfo
 		if cs != nil {
 			mk = markerOf(cs)
@@ -164,8 +168,13 @@ func checkDecodeGates(r *Report, p *Prog, rule string, only func(*ssa.Function) 
 			continue
 		}
 		a := NewAnalysis(p)
+		// the decoder's unexported helpers (a shared parse step, the claim checks) are analysed as part of it
+		a.Inline = func(f *ssa.Function) bool {
+			return f.Pkg == fn.Pkg && f != fn && p.InLibrary(f) && (f.Object() == nil || !f.Object().Exported()) && f.Signature.Results().Len() == 1 && (errIndex(f) == 0 || isPredicate(f))
+		}
 		B := a.B
 		t := NewTable(r, a, fn)
+		rg := NewRegion(p, fn, 2)
 		var parseErr, aud, iss, marker string
 		for _, ai := range t.atomsIn() {
 			switch {
@@ -201,15 +210,35 @@ func checkDecodeGates(r *Report, p *Prog, rule string, only func(*ssa.Function) 
 		rw("the codec's marker claim is absent", marker, false)
 		t.Accept(rule, "a token that parses and carries the right audience, issuer and marker", map[string]bool{parseErr: true, aud: true, iss: true, marker: true}, []string{"Audience", "Issuer", "claims", "Claims"})
 
-		// parser literal
-		pf := litFields(fn, jwtPath, "Parser")
+		// parser literal (in the decoder or in its parse helper)
+		pf := map[string][]*ssa.Store{}
+		pfCtx := map[*ssa.Store]*FuncCtx{}
+		for _, c := range rg.all {
+			for f, sts := range litFields(c.fn, jwtPath, "Parser") {
+				for _, st := range sts {
+					if _, dup := pfCtx[st]; !dup {
+						pf[f] = append(pf[f], st)
+						pfCtx[st] = rg.Ctx(a, c)
+					}
+				}
+			}
+		}
 		cons := t.name + ": jwt.Parser restricts the signing methods to the codec's own algorithm"
 		vm := pf["ValidMethods"]
 		okVM := false
 		detail := "ValidMethods is not set: any algorithm the key function's key type verifies is accepted (alg substitution)"
+		vmVal, vmCtx := ssa.Value(nil), (*FuncCtx)(nil)
 		if len(vm) == 1 {
-			leaves := rootLeaves(vm[0].Val, map[ssa.Value]bool{})
-			fc := t.FC
+			vmVal, vmCtx = vm[0].Val, pfCtx[vm[0]]
+		} else if len(vm) == 0 {
+			// the options API: jwt.NewParser(jwt.WithValidMethods(list))
+			for _, x := range rg.Calls(jwtPath + ".WithValidMethods") {
+				vmVal, vmCtx = x.I.(*ssa.Call).Call.Args[0], rg.Ctx(a, x.C)
+			}
+		}
+		if vmVal != nil {
+			leaves := rootLeaves(vmVal, map[ssa.Value]bool{})
+			fc := vmCtx
 			if len(leaves) == 1 && strings.HasSuffix(fc.AP(leaves[0]), ".SigningMethod.Alg()") {
 				okVM = true
 				detail = "ValidMethods = [" + fc.AP(leaves[0]) + "]"
@@ -230,42 +259,44 @@ func checkDecodeGates(r *Report, p *Prog, rule string, only func(*ssa.Function) 
 			}
 		}
 		// key function
-		for _, b := range fn.Blocks {
-			for _, in := range b.Instrs {
-				c, ok := in.(*ssa.Call)
-				if !ok {
-					continue
-				}
-				scf := c.Call.StaticCallee()
-				if scf == nil || !strings.HasSuffix(scf.String(), "Parser).ParseWithClaims") {
-					continue
-				}
-				kc := t.name + ": key function returns the codec's public key and ignores the token"
-				var kf *ssa.Function
-				karg := c.Call.Args[3]
-				if ct, ok := karg.(*ssa.ChangeType); ok {
-					karg = ct.X
-				}
-				switch x := karg.(type) {
-				case *ssa.MakeClosure:
-					kf = x.Fn.(*ssa.Function)
-				case *ssa.Function:
-					kf = x
-				}
-				if kf == nil {
-					r.Bad(rule, kc, p.InstrPos(in), "key function is not a literal closure")
-					continue
-				}
-				okK := len(*kf.Params[0].Referrers()) == 0
-				kfc := a.Ctx(kf)
-				for _, ret := range kfc.Returns() {
-					ap := kfc.AP(Resolve(ret.Results[0]))
-					if !strings.HasSuffix(ap, ".Key.Public()") {
-						okK = false
-					}
-				}
-				r.Check(okK, rule, kc, p.InstrPos(in), "returns c.Key.Public()", "the verification key depends on the presented token or is not the codec's key")
+		for _, x := range rg.Calls("(*" + jwtPath + ".Parser).ParseWithClaims") {
+			c := x.I.(*ssa.Call)
+			in := x.I
+			xfc := rg.Ctx(a, x.C)
+			kc := t.name + ": key function returns the codec's public key and ignores the token"
+			var kf *ssa.Function
+			var kfc *FuncCtx
+			tokenParam := 0
+			karg := c.Call.Args[3]
+			if ct, ok := karg.(*ssa.ChangeType); ok {
+				karg = ct.X
 			}
+			switch y := karg.(type) {
+			case *ssa.MakeClosure:
+				kf = y.Fn.(*ssa.Function)
+				if m := forwardedBy(kf); m != nil && len(y.Bindings) == 1 {
+					// a method value: the method with its receiver bound
+					kf, tokenParam = m, 1
+					kfc = xfc.inlineCtx(m, []ssa.Value{y.Bindings[0]}, c)
+				} else {
+					kfc = xfc.inlineClosure(kf, y, xfc, nil, c)
+				}
+			case *ssa.Function:
+				kf = y
+				kfc = a.Ctx(kf)
+			}
+			if kf == nil || tokenParam >= len(kf.Params) {
+				r.Bad(rule, kc, p.InstrPos(in), "key function is not a literal closure or a method of the codec")
+				continue
+			}
+			okK := len(*kf.Params[tokenParam].Referrers()) == 0
+			for _, ret := range kfc.Returns() {
+				ap := kfc.AP(Resolve(ret.Results[0]))
+				if !strings.HasSuffix(ap, ".Key.Public()") {
+					okK = false
+				}
+			}
+			r.Check(okK, rule, kc, p.InstrPos(in), "returns c.Key.Public()", "the verification key depends on the presented token or is not the codec's key")
 		}
 	}
 	// ParseUnverified is never called in the module
@@ -343,27 +374,13 @@ func ruleC16(r *Report) {
 		chk("IssuedAt", 0)
 		chk("NotBefore", 0)
 
-		// mapping: the constructor and the module helpers it calls
-		mapFns := []*ssa.Function{fn}
-		seenMF := map[*ssa.Function]bool{fn: true}
-		for k := 0; k < len(mapFns) && k < 8; k++ {
-			for _, b := range mapFns[k].Blocks {
-				for _, in := range b.Instrs {
-					if c, ok := in.(*ssa.Call); ok && c.Call.StaticCallee() != nil && p.InLibrary(c.Call.StaticCallee()) && !seenMF[c.Call.StaticCallee()] && len(c.Call.StaticCallee().Blocks) > 0 {
-						seenMF[c.Call.StaticCallee()] = true
-						mapFns = append(mapFns, c.Call.StaticCallee())
-					}
-				}
-			}
-		}
-		for _, mf := range mapFns {
-			am := a
-			fm := fc
-			if mf != fn {
-				am = NewAnalysis(p)
-				fm = am.Ctx(mf)
-				r.Fn(p.FnName(mf))
-			}
+		// mapping: the constructor and the helpers it is split into, each seen with its parameters bound to the
+		// constructor's values
+		rg := NewRegion(p, fn, 3)
+		for _, act := range rg.all {
+			mf := act.fn
+			fm := rg.Ctx(a, act)
+			r.Fn(p.FnName(mf))
 			for _, b := range mf.Blocks {
 				for _, in := range b.Instrs {
 					mu, ok := in.(*ssa.MapUpdate)
@@ -399,10 +416,10 @@ func ruleC16(r *Report) {
 					// the claim is named by the attribute's FriendlyName, else its Name (or the constant session-index claim)
 					okK := true
 					var keys []string
-					for _, gl := range gatedLeaves(mu.Key, nil, map[ssa.Value]bool{}) {
-						kap := fm.AP(gl.v)
+					for _, gl := range rg.Origins(RV{V: mu.Key, C: act}) {
+						kap := rg.Ctx(a, gl.C).AP(gl.V)
 						keys = append(keys, kap)
-						if _, isC := gl.v.(*ssa.Const); isC {
+						if _, isC := gl.V.(*ssa.Const); isC {
 							continue
 						}
 						if !(strings.HasSuffix(kap, "Attributes[*].FriendlyName") || strings.HasSuffix(kap, "Attributes[*].Name")) {
@@ -414,8 +431,19 @@ func ruleC16(r *Report) {
 			}
 		}
 		for _, st := range lf["StandardClaims.Subject"] {
-			ap := fc.AP(st.Val)
-			r.Check(strings.HasSuffix(ap, "Assertion.Subject.NameID.Value"), "C16.mapping", p.FnName(fn)+": Subject claim", p.InstrPos(st), ap, "subject claim comes from "+ap)
+			okS := true
+			var srcs []string
+			for _, o := range rg.Origins(RV{V: st.Val, C: rg.top}) {
+				if isEmptyStringConst(o.V) {
+					continue // no subject / no name identifier
+				}
+				ap := rg.Ctx(a, o.C).AP(o.V)
+				srcs = append(srcs, ap)
+				if !strings.HasSuffix(ap, "Assertion.Subject.NameID.Value") {
+					okS = false
+				}
+			}
+			r.Check(okS && len(srcs) > 0, "C16.mapping", p.FnName(fn)+": Subject claim", p.InstrPos(st), strings.Join(srcs, " | "), "subject claim comes from "+strings.Join(srcs, " | "))
 		}
 	}
 
@@ -472,6 +500,10 @@ func checkSessionGates(r *Report, p *Prog, rule string) {
 			continue
 		}
 		a := NewAnalysis(p)
+		// a test factored out into an unexported predicate of the package is part of the guard
+		a.Inline = func(f *ssa.Function) bool {
+			return f.Pkg == top.Pkg && p.InLibrary(f) && (f.Object() == nil || !f.Object().Exported()) && isPredicate(f)
+		}
 		B := a.B
 		fc := a.Ctx(fn)
 		fc.ensureConds()
@@ -548,7 +580,7 @@ func ruleC17(r *Report) {
 	m := &spModel{P: p}
 	checkMiddlewareIDs(r, m, "C17.ids")
 	checkDecodeGates(r, p, "C17.marker", func(fn *ssa.Function) bool {
-		cs := claimsStructOf(fn)
+		cs := claimsStructOf(p, fn)
 		return cs != nil && strings.Contains(cs.Obj().Name(), "TrackedRequest")
 	})
 	checkTracker(r, p, "C17.tracker")
@@ -562,10 +594,15 @@ func checkTracker(r *Report, p *Prog, rule string) {
 	// GetTrackedRequests
 	fn := p.MustFunc("samlsp", "CookieRequestTracker", "GetTrackedRequests")
 	a := NewAnalysis(p)
+	// the per-cookie checks may sit in an unexported helper of the package (decode, then compare the index)
+	a.Inline = func(f *ssa.Function) bool {
+		return f.Pkg == fn.Pkg && f != fn && p.InLibrary(f) && (f.Object() == nil || !f.Object().Exported()) && errIndex(f) >= 0
+	}
 	B := a.B
 	fc := a.Ctx(fn)
 	fc.ensureConds()
 	r.Fn(p.FnName(fn))
+	rgT := NewRegion(p, fn, 2)
 	n := 0
 	for _, b := range fn.Blocks {
 		for _, in := range b.Instrs {
@@ -609,7 +646,18 @@ func checkTracker(r *Report, p *Prog, rule string) {
 			av := appendedValue(c)
 			if av != nil {
 				ap := fc.AP(av)
-				r.Check(strings.Contains(ap, "Decode#"), rule, p.FnName(fn)+": listed value is the decoded tracked request", p.InstrPos(in), ap, "listed value is "+ap)
+				okD := strings.Contains(ap, "Decode#")
+				if !okD {
+					if ld, isLd := av.(*ssa.UnOp); isLd {
+						av = ld.X
+					}
+					for _, o := range rgT.Origins(RV{V: av, C: rgT.top}) {
+						if oap := rgT.Ctx(a, o.C).AP(o.V); strings.Contains(oap, "Decode#") {
+							okD, ap = true, oap
+						}
+					}
+				}
+				r.Check(okD, rule, p.FnName(fn)+": listed value is the decoded tracked request", p.InstrPos(in), ap, "listed value is "+ap)
 			}
 		}
 	}
@@ -671,55 +719,40 @@ func checkRedirect(r *Report, p *Prog, rule, orderRule string) {
 			continue
 		}
 		a := NewAnalysis(p)
+		// the resolution of the relay state may sit in an unexported helper of the package: part of this function
+		a.Inline = func(f *ssa.Function) bool {
+			return f.Pkg == fn.Pkg && f != fn && p.InLibrary(f) && (f.Object() == nil || !f.Object().Exported())
+		}
 		B := a.B
 		fc := a.Ctx(fn)
 		fc.ensureConds()
 		r.Fn(p.FnName(fn))
+		rg := NewRegion(p, fn, 2)
 		for _, ci := range callsTo(fn, "net/http.Redirect") {
 			call := ci.(*ssa.Call)
 			target := call.Call.Args[2]
-			phi, isPhi := target.(*ssa.Phi)
-			var edges []ssa.Value
-			var preds []*ssa.BasicBlock
-			if isPhi {
-				edges = phi.Edges
-				preds = phi.Block().Preds
-			} else {
-				edges = []ssa.Value{target}
-				preds = []*ssa.BasicBlock{call.Block()}
-			}
-			// flatten nested phis
-			type leaf struct {
-				v ssa.Value
-				b *ssa.BasicBlock
-			}
-			var leaves []leaf
-			var walk func(v ssa.Value, b *ssa.BasicBlock, d int)
-			walk = func(v ssa.Value, b *ssa.BasicBlock, d int) {
-				if ph, ok := v.(*ssa.Phi); ok && d < 4 {
-					for i, e := range ph.Edges {
-						walk(e, ph.Block().Preds[i], d+1)
-					}
-					return
-				}
-				leaves = append(leaves, leaf{v, b})
-			}
-			for i, e := range edges {
-				walk(e, preds[i], 0)
-			}
-			for _, lf := range leaves {
-				ap := fc.AP(lf.v)
+			for _, lf := range rg.Origins(RV{V: target, C: rg.top}) {
+				lfc := rg.Ctx(a, lf.C)
+				ap := lfc.AP(lf.V)
 				cons := fmt.Sprintf("%s: redirect target %s", p.FnName(fn), ap)
-				cnd := fc.Cond(lf.b)
+				cnd := fc.Cond(call.Block())
+				for _, vb := range lf.Via {
+					vfc := rg.Ctx(a, vb.C)
+					vfc.ensureConds()
+					cnd = B.And(cnd, vfc.AbsCond(vb.B))
+				}
+				if len(lf.Via) == 0 {
+					cnd = fc.Cond(call.Block())
+				}
 				switch {
-				case isParamOf(fn, lf.v):
+				case lf.C == rg.top && isParamOf(fn, lf.V):
 					// the parameter: callers must pass the configured default
 					okP := true
 					var srcs []string
 					for _, cs := range p.StaticCallersOf(fn) {
 						cfc := a.Ctx(cs.Caller)
 						for i, prm := range fn.Params {
-							if prm == lf.v {
+							if prm == lf.V {
 								s := cfc.AP(cs.Instr.Common().Args[i])
 								srcs = append(srcs, s)
 								if !strings.HasSuffix(s, "ServiceProvider.DefaultRedirectURI") {
@@ -748,6 +781,8 @@ func checkRedirect(r *Report, p *Prog, rule, orderRule string) {
 						}
 					}
 					r.Check(noCookie && allow, rule, cons, p.InstrPos(call), "only when the cookie is absent and IdP-initiated login is allowed", "the caller-chosen RelayState becomes the redirect target without the ErrNoCookie && AllowIDPInitiated guard")
+				case isEmptyStringConst(lf.V):
+					// the helper's "stop" result; the caller returns before the redirect
 				default:
 					r.Bad(rule, cons, p.InstrPos(call), "redirect target has a source outside the three allowed ones")
 				}
@@ -779,13 +814,13 @@ func checkRedirect(r *Report, p *Prog, rule, orderRule string) {
 					}
 					// the tracked path: the lookup was made (its block was reached) and returned no error
 					reached := B.True
-					for _, b2 := range fn.Blocks {
-						for _, in2 := range b2.Instrs {
-							if c2, ok := in2.(*ssa.Call); ok && c2.Call.IsInvoke() && c2.Call.Method.Name() == "GetTrackedRequest" {
-								reached = fc.Cond(b2)
-							}
+					rg.Each(func(x2 RI) {
+						if c2, ok := x2.I.(*ssa.Call); ok && c2.Call.IsInvoke() && c2.Call.Method.Name() == "GetTrackedRequest" {
+							xfc := rg.Ctx(a, x2.C)
+							xfc.ensureConds()
+							reached = xfc.AbsCond(x2.I.Block())
 						}
-					}
+					})
 					okO := stopNil != "" && tracked != "" && B.Implies(B.And(B.And(cnd, reached), B.Var(tracked)), B.Var(stopNil))
 					r.Check(okO, orderRule, p.FnName(fn)+": on the tracked path the tracking cookie is cleared before the session is created", p.InstrPos(in), "cond & tracked => StopTrackingRequest == nil", "a session can be created for a tracked request whose tracking cookie was not cleared")
 				}
@@ -912,7 +947,17 @@ func checkCookieFlags(r *Report, p *Prog, rule string) {
 	sec, path, name := get("Secure"), get("Path"), get("Name")
 	r.Check(strings.Contains(sec, "AcsURL.Scheme") && strings.Contains(sec, `"https"`), rule, p.FnName(tr)+": tracking cookie Secure on https ACS", p.Pos(tr.Pos()), sec, "Secure is "+sec)
 	r.Check(strings.HasSuffix(path, "AcsURL.Path"), rule, p.FnName(tr)+": tracking cookie scoped to the ACS path", p.Pos(tr.Pos()), path, "Path is "+path)
-	r.Check(strings.Contains(name, ".NamePrefix+") && strings.Contains(name, ".Index"), rule, p.FnName(tr)+": tracking cookie named prefix + index", p.Pos(tr.Pos()), name, "Name is "+name)
+	// the name is the prefix followed by the index that is signed into the cookie's value: the Index field of the
+	// encoded record, or the very value stored into that field
+	okName := strings.Contains(name, ".NamePrefix+") && strings.Contains(name, ".Index")
+	if !okName && strings.Contains(name, ".NamePrefix+") {
+		for _, st := range litFields(tr, modPath+"/samlsp", "TrackedRequest")["Index"] {
+			if idx := fc3.AP(st.Val); strings.HasSuffix(name, ".NamePrefix+"+idx+")") {
+				okName = true
+			}
+		}
+	}
+	r.Check(okName, rule, p.FnName(tr)+": tracking cookie named prefix + index", p.Pos(tr.Pos()), name, "Name is "+name)
 }
 
 // boolLeaves: leaves of a boolean or/and expression lowered to phis.
@@ -1030,6 +1075,11 @@ func isMapLookupOf(v ssa.Value, m, key ssa.Value) bool {
 	same := func(a, b ssa.Value) bool {
 		if a == b {
 			return true
+		}
+		if ca, ok := a.(*ssa.Const); ok {
+			if cb, ok := b.(*ssa.Const); ok {
+				return constString(ca) == constString(cb)
+			}
 		}
 		la, ok1 := a.(*ssa.UnOp)
 		lb, ok2 := b.(*ssa.UnOp)
